@@ -1,4 +1,64 @@
+(* C06 — Parser state minimization preserves behaviour from every entry point.
+   Models: Gram/Run.v (the generated parser's main loop), Gram/Minimize.v (lalr/minimize.go and the finite
+   quotient check).  Only statements, an example and Print Assumptions here. *)
 From Coq Require Import List ZArith Bool.
-From TM Require Import Gram.PTables Gram.Run Gram.Minimize.
+From TM Require Import Gram.PTables Gram.Run Gram.Minimize Gram.Minimize_proofs.
 Import ListNotations.
-Example C06_placeholder : True. Proof. exact I. Qed.
+Local Open Scope Z_scope.
+
+(* If the finite exhaustive check passes for (tables, minimized tables, remapping), then for every input
+   index i, EVERY token sequence over the terminals and every amount of fuel, the minimized parser started
+   at entry state i has the same outcome as the original, and its stack and trace are the original's with
+   states remapped and reductions replaced by equivalent rules (same lhs, length, action, type, flags) —
+   provided the original run is never in a state that was merged with its end state. *)
+Theorem C06_minimized_parser_simulates :
+  forall mi rule_sym mo terms ninputs, check_min mi rule_sym mo terms ninputs = true -> 0 < terms ->
+  forall i, 0 <= i < ninputs -> i < mi_num_states mi ->
+  forall end_state, 0 <= end_state < mi_num_states mi ->
+  forall fuel eoff input, Forall (fun tk => 0 <= t_sym tk < terms) input ->
+  let m := default_machine (mi_enc mi) (mi_rule_len mi) rule_sym in
+  let m' := default_machine (mo_enc mo) (mi_rule_len mi) rule_sym in
+  let remap := zn (mo_remap mo) in
+  (forall s, In s (visited m fuel eoff end_state (mkConfig [mkEntry 0 0 0 i] i input 0 [])) ->
+             remap s = remap end_state -> s = end_state) ->
+  fst (run fuel m i end_state eoff input) = fst (run fuel m' i (remap end_state) eoff input) /\
+  config_rel remap (rel_rule_of mi rule_sym)
+             (snd (run fuel m i end_state eoff input)) (snd (run fuel m' i (remap end_state) eoff input)).
+Proof.
+  intros mi rule_sym mo terms ninputs Hck Hterms i Hi Hin end_state Hend fuel eoff input Htok m m' remap Hnc.
+  exact (minimized_parser_simulates mi rule_sym mo terms ninputs Hck Hterms i Hi Hin end_state Hend fuel eoff input Htok Hnc).
+Qed.
+
+(* the abstract statement: any two machines related by a state map that commutes with actions and gotos
+   run in lock step (independent of how the map was found) *)
+Theorem C06_quotient_simulation :
+  forall m m' remap n terms nsyms (rel_rule : Z -> Z -> Prop),
+  (forall r r', rel_rule r r' -> m_rule_len m r = m_rule_len m' r' /\ m_rule_sym m r = m_rule_sym m' r' /\ terms <= m_rule_sym m r < nsyms) ->
+  (forall s a more, valid n s -> 0 <= a < terms -> Forall (fun x => 0 <= x < terms) more ->
+     act_sim remap n rel_rule (m_act m s a more) (m_act m' (remap s) a more)) ->
+  (forall s, valid n s -> 0 <= remap s) ->
+  (forall s x, valid n s -> terms <= x < nsyms ->
+     (m_goto m s x = -1 /\ m_goto m' (remap s) x = -1) \/
+     (valid n (m_goto m s x) /\ m_goto m' (remap s) x = remap (m_goto m s x))) ->
+  forall fuel start end_state eoff input, 0 < terms -> valid n start -> valid n end_state -> toks_ok terms input ->
+  (forall s, In s (visited m fuel eoff end_state (mkConfig [mkEntry 0 0 0 start] start input 0 [])) ->
+             remap s = remap end_state -> s = end_state) ->
+  fst (run fuel m start end_state eoff input) = fst (run fuel m' (remap start) (remap end_state) eoff input) /\
+  config_rel remap rel_rule (snd (run fuel m start end_state eoff input))
+             (snd (run fuel m' (remap start) (remap end_state) eoff input)).
+Proof. exact run_sim. Qed.
+
+(* S -> a | b with equal rule keys: the states after 'a' and after 'b' merge; hypotheses are satisfied *)
+Definition ex_mi : min_input :=
+  mkMinInput (mkDefaultEnc [-1; 0; 1; -1; -2] [] [0; 2; 4; 6; 8] [3; 4; 0; 1; 0; 2; 0; 3]) [1; 1]
+             [[3; 0; -1; 0]; [3; 0; -1; 0]] [4] [true] [] 5.
+
+Example C06_example :
+  mo_num_states (minimize ex_mi) = 4 /\ mo_remap (minimize ex_mi) = [0; 1; 1; 2; 3] /\
+  check_min ex_mi [3; 3] (minimize ex_mi) 3 1 = true /\
+  fst (run 50 (default_machine (mi_enc ex_mi) [1; 1] [3; 3]) 0 4 1 [mkTok 2 0 1]) = Accept /\
+  fst (run 50 (default_machine (mo_enc (minimize ex_mi)) [1; 1] [3; 3]) 0 3 1 [mkTok 2 0 1]) = Accept.
+Proof. vm_compute. repeat split; reflexivity. Qed.
+
+Print Assumptions C06_minimized_parser_simulates.
+Print Assumptions C06_quotient_simulation.
